@@ -25,6 +25,23 @@ func (c *valueArrayCache) get(idx int) reflectValueWrapper {
 	return nil
 }
 
+// cached returns the wrapper that was handed out for element idx, provided it still refers to that
+// element: the host may have resliced or re-allocated the slice since, in which case the wrapper keeps
+// referring to the old element and is forgotten here.
+func (o *objectGoArrayReflect) cached(idx int) reflectValueWrapper {
+	w := o.valueCache.get(idx)
+	if w == nil {
+		return nil
+	}
+	if idx < o.fieldsValue.Len() {
+		if rv, cur := w.reflectValue(), o.fieldsValue.Index(idx); rv.CanAddr() && cur.CanAddr() && rv.Addr().Pointer() == cur.Addr().Pointer() {
+			return w
+		}
+	}
+	o.valueCache[idx] = nil
+	return nil
+}
+
 func (c *valueArrayCache) grow(newlen int) {
 	oldcap := cap(*c)
 	if oldcap < newlen {
@@ -88,7 +105,7 @@ func (o *objectGoArrayReflect) _hasStr(name unistring.String) bool {
 }
 
 func (o *objectGoArrayReflect) _getIdx(idx int) Value {
-	if v := o.valueCache.get(idx); v != nil {
+	if v := o.cached(idx); v != nil {
 		return v.esValue()
 	}
 
@@ -161,7 +178,7 @@ func (o *objectGoArrayReflect) _putIdx(idx int, v Value, throw bool) bool {
 		o.val.runtime.typeErrorResult(throw, "Cannot add element %d to a Go array of length %d", idx, o.fieldsValue.Len())
 		return false
 	}
-	cached := o.valueCache.get(idx)
+	cached := o.cached(idx)
 	if cached != nil {
 		copyReflectValueWrapper(cached)
 	}
@@ -269,7 +286,7 @@ func (o *objectGoArrayReflect) defineOwnPropertyStr(name unistring.String, descr
 
 func (o *objectGoArrayReflect) _deleteIdx(idx int) {
 	if idx < o.fieldsValue.Len() {
-		if cv := o.valueCache.get(idx); cv != nil {
+		if cv := o.cached(idx); cv != nil {
 			copyReflectValueWrapper(cv)
 			o.valueCache[idx] = nil
 		}
@@ -336,13 +353,13 @@ func (o *objectGoArrayReflect) sortGet(i int) Value {
 func (o *objectGoArrayReflect) swap(i int, j int) {
 	vi := o.fieldsValue.Index(i)
 	vj := o.fieldsValue.Index(j)
+	cachedI := o.cached(i)
+	cachedJ := o.cached(j)
 	tmp := reflect.New(o.fieldsValue.Type().Elem()).Elem()
 	tmp.Set(vi)
 	vi.Set(vj)
 	vj.Set(tmp)
 
-	cachedI := o.valueCache.get(i)
-	cachedJ := o.valueCache.get(j)
 	if cachedI != nil {
 		cachedI.setReflectValue(vj)
 		o.valueCache.put(j, cachedI)
